@@ -200,12 +200,15 @@ class Renderer:
             # DECIMAL: '-'? DIGIT+ '.' DIGIT+ | '-'? '.' DIGIT+ - the whole part may carry leading zeros or be missing
             z = self.ch(4)
             sign, digits = ("-", str(-n)) if n < 0 else ("", str(n))
+            if n == 0 and self.ch(4) == 0:
+                sign = "-"  # negative zero: -0.5 / -.5 / -00.0 are spellings of the same coordinates as 0.5 / 0.0
+                self.dims.add("pos_negative_zero")
             if z == 1:
                 self.dims.add("pos_decimal_zeros")
                 return sign + "0" * (1 + self.ch(3)) + digits
             if z == 2 and n == 0:
                 self.dims.add("pos_decimal_zeros")
-                return ""
+                return sign  # ".5" or "-.5"
             return sign + digits
 
         if half:
